@@ -248,6 +248,7 @@ type Obligation struct {
 
 type Frame struct {
 	id     int
+	autoInline bool // expanded in place because it has no contract (safety of its body is not claimed)
 	fn     *ssa.Function
 	regs   map[ssa.Value]Val
 	parent *Frame
@@ -304,6 +305,7 @@ type Run struct {
 	firedAnchors map[string]bool
 	factGuard Term
 	topReplay *replayInfo
+	nextAutoInline bool
 	nameCount map[string]int
 	localBoxes []localBox
 	escaping  map[string]bool
